@@ -5,7 +5,8 @@
 From Coq Require Import ZArith Reals Floats Lia Lra List Bool Arith.
 From Flocq Require Import Core.Core IEEE754.BinarySingleNaN IEEE754.PrimFloat.
 From OV Require Import Base.Panic Base.Arith Model.Vector Model.Mesh Inst.FloatInst Proofs.MeshBase Proofs.MeshQuad
-                       Proofs.ParDotFloat Proofs.ComplexRound Proofs.Round2Lin Proofs.Round2Mesh.
+                       Proofs.ParDotFloat Proofs.ComplexRound Proofs.Round2Lin Proofs.Round2Mesh Proofs.Round2MeshB.
+From OV Require gen.Params.
 Import ListNotations.
 
 (* ==== C15 ==== *)
@@ -146,4 +147,100 @@ Proof.
   split; [exact ex_tmesh_nodes|]. split; [exact ex_tmesh_vals|].
   split; [lia|]. split; [lia|]. split; [lia|].
   split; [exact ex_tmesh_dx|]. split; [exact ex_tmesh_df|]. split; [vm_compute; reflexivity|exact ex_tmesh_value].
+Qed.
+
+(* Mesh1D::get_interpolated_vars at binary64 with the code's window (MESH_SNAP = 1e-7): node coordinates X_k 2^e on
+   a grid no finer than the window (e >= -23), strictly increasing; x = Xx 2^e on the grid, j the LAST cell containing
+   it; cell j of width 2^P 2^e with nodal data F 2^g (integer-valued: g = 0) whose numerators, scaled by 2^P, fit in
+   53 bits.  Then the result is finite and EXACTLY the linear interpolant over the reals; at the left node of the
+   cell it returns that node's values and at the last node of the mesh the last node's values.
+   (Every cell is tested and a later matching cell overwrites: at an interior node both neighbouring cells match.) *)
+Theorem interp_exact_float : forall (m : mesh1 AF PrimFloat.float) (x : PrimFloat.float) (X F0 F1 : nat -> Z)
+  (Xx e g P : Z) (j : nat),
+  let n := length (m1_nodes m) in
+  let xs := fun k => nth k (m1_nodes m) 0%float in
+  let L := fun v => nth v (nth j (m1_vars m) []) 0%float in
+  let Rr := fun v => nth v (nth (j + 1) (m1_vars m) []) 0%float in
+  wf1 m -> (j + 1 < n)%nat ->
+  (forall k, (k < n)%nat -> ffinite (xs k) /\ FR (xs k) = (IZR (X k) * bpow radix2 e)%R) ->
+  (forall k, (k + 1 < n)%nat -> (X k < X (k + 1)%nat)%Z) ->
+  ffinite x -> FR x = (IZR Xx * bpow radix2 e)%R ->
+  (forall k, (k < n)%nat -> (Z.abs (X k - Xx) < 2 ^ 53)%Z) ->
+  (-23 <= e <= 971)%Z ->
+  (X j <= Xx <= X (j + 1)%nat)%Z -> (Xx = X (j + 1)%nat -> (j + 2 = n)%nat) ->
+  (X (j + 1)%nat - X j = 2 ^ P)%Z -> (0 <= P <= 52)%Z ->
+  (forall v, (v < m1_nvars m)%nat -> ffinite (L v) /\ FR (L v) = (IZR (F0 v) * bpow radix2 g)%R) ->
+  (forall v, (v < m1_nvars m)%nat -> ffinite (Rr v) /\ FR (Rr v) = (IZR (F1 v) * bpow radix2 g)%R) ->
+  (forall v, (v < m1_nvars m)%nat ->
+     (Z.abs (F1 v - F0 v) * 2 ^ P < 2 ^ 53 /\ Z.abs (F0 v) * 2 ^ P < 2 ^ 53 /\ Z.abs (F1 v) * 2 ^ P < 2 ^ 53)%Z) ->
+  (-1074 <= g <= 971)%Z -> (-1074 <= g - P - e <= 971)%Z -> (-1074 <= g - P)%Z ->
+  exists r, interp1 (A := AF) Params.MESH_SNAP m x = Ok r /\ length r = m1_nvars m /\
+    forall v, (v < m1_nvars m)%nat ->
+      ffinite (nth v r 0%float) /\
+      FR (nth v r 0%float)
+        = (FR (L v) + (FR (Rr v) - FR (L v)) / (FR (xs (j + 1)%nat) - FR (xs j)) * (FR x - FR (xs j)))%R /\
+      (Xx = X j -> FR (nth v r 0%float) = FR (L v)) /\
+      (Xx = X (j + 1)%nat -> FR (nth v r 0%float) = FR (Rr v)).
+Proof.
+  intros m x X F0 F1 Xx e g P j n xs L Rr Hwf Hj HX Hinc Fx Rx Hb He Hin Hlast HP HP' HF0 HF1 HFb Hg Hq Hgp.
+  exact (interp_exact_float_lemma m x X F0 F1 Xx e g P j Hwf Hj HX Hinc Fx Rx Hb He Hin Hlast HP HP' HF0 HF1 HFb Hg Hq Hgp).
+Qed.
+Check interp_exact_float : forall (m : mesh1 AF PrimFloat.float) (x : PrimFloat.float) (X F0 F1 : nat -> Z)
+  (Xx e g P : Z) (j : nat),
+  let n := length (m1_nodes m) in
+  let xs := fun k => nth k (m1_nodes m) 0%float in
+  let L := fun v => nth v (nth j (m1_vars m) []) 0%float in
+  let Rr := fun v => nth v (nth (j + 1) (m1_vars m) []) 0%float in
+  wf1 m -> (j + 1 < n)%nat ->
+  (forall k, (k < n)%nat -> ffinite (xs k) /\ FR (xs k) = (IZR (X k) * bpow radix2 e)%R) ->
+  (forall k, (k + 1 < n)%nat -> (X k < X (k + 1)%nat)%Z) ->
+  ffinite x -> FR x = (IZR Xx * bpow radix2 e)%R ->
+  (forall k, (k < n)%nat -> (Z.abs (X k - Xx) < 2 ^ 53)%Z) ->
+  (-23 <= e <= 971)%Z ->
+  (X j <= Xx <= X (j + 1)%nat)%Z -> (Xx = X (j + 1)%nat -> (j + 2 = n)%nat) ->
+  (X (j + 1)%nat - X j = 2 ^ P)%Z -> (0 <= P <= 52)%Z ->
+  (forall v, (v < m1_nvars m)%nat -> ffinite (L v) /\ FR (L v) = (IZR (F0 v) * bpow radix2 g)%R) ->
+  (forall v, (v < m1_nvars m)%nat -> ffinite (Rr v) /\ FR (Rr v) = (IZR (F1 v) * bpow radix2 g)%R) ->
+  (forall v, (v < m1_nvars m)%nat ->
+     (Z.abs (F1 v - F0 v) * 2 ^ P < 2 ^ 53 /\ Z.abs (F0 v) * 2 ^ P < 2 ^ 53 /\ Z.abs (F1 v) * 2 ^ P < 2 ^ 53)%Z) ->
+  (-1074 <= g <= 971)%Z -> (-1074 <= g - P - e <= 971)%Z -> (-1074 <= g - P)%Z ->
+  exists r, interp1 (A := AF) Params.MESH_SNAP m x = Ok r /\ length r = m1_nvars m /\
+    forall v, (v < m1_nvars m)%nat ->
+      ffinite (nth v r 0%float) /\
+      FR (nth v r 0%float)
+        = (FR (L v) + (FR (Rr v) - FR (L v)) / (FR (xs (j + 1)%nat) - FR (xs j)) * (FR x - FR (xs j)))%R /\
+      (Xx = X j -> FR (nth v r 0%float) = FR (L v)) /\
+      (Xx = X (j + 1)%nat -> FR (nth v r 0%float) = FR (Rr v)).
+Print Assumptions interp_exact_float.
+(* nodes 0, 1/4, 3/4, 7/4 (grid 2^-2, cell widths 1, 2, 4 grid units), integer data 3, -5, 7, 2; x = 1/2 in cell 1:
+   -5 + (12 / 0.5) * 0.25 = 1; at the interior node 3/4 the value 7, at the last node the value 2 *)
+Example interp_exact_float_nonvacuous :
+  let m := ex_imeshF in
+  let n := length (m1_nodes m) in
+  let xs := fun k => nth k (m1_nodes m) 0%float in
+  let L := fun v => nth v (nth 1 (m1_vars m) []) 0%float in
+  let Rr := fun v => nth v (nth (1 + 1) (m1_vars m) []) 0%float in
+  wf1 m /\ (1 + 1 < n)%nat /\
+  (forall k, (k < n)%nat -> ffinite (xs k) /\ FR (xs k) = (IZR (ex_iX k) * bpow radix2 (-2))%R) /\
+  (forall k, (k + 1 < n)%nat -> (ex_iX k < ex_iX (k + 1)%nat)%Z) /\
+  ffinite 0.5%float /\ FR 0.5%float = (IZR 2 * bpow radix2 (-2))%R /\
+  (forall k, (k < n)%nat -> (Z.abs (ex_iX k - 2) < 2 ^ 53)%Z) /\
+  (-23 <= -2 <= 971)%Z /\
+  (ex_iX 1 <= 2 <= ex_iX (1 + 1)%nat)%Z /\ (2%Z = ex_iX (1 + 1)%nat -> (1 + 2 = n)%nat) /\
+  (ex_iX (1 + 1)%nat - ex_iX 1 = 2 ^ 1)%Z /\ (0 <= 1 <= 52)%Z /\
+  (forall v, (v < m1_nvars m)%nat -> ffinite (L v) /\ FR (L v) = (IZR (-5) * bpow radix2 0)%R) /\
+  (forall v, (v < m1_nvars m)%nat -> ffinite (Rr v) /\ FR (Rr v) = (IZR 7 * bpow radix2 0)%R) /\
+  (forall v : nat, (v < m1_nvars m)%nat ->
+     (Z.abs (7 - -5) * 2 ^ 1 < 2 ^ 53 /\ Z.abs (-5) * 2 ^ 1 < 2 ^ 53 /\ Z.abs 7 * 2 ^ 1 < 2 ^ 53)%Z) /\
+  (-1074 <= 0 <= 971)%Z /\ (-1074 <= 0 - 1 - -2 <= 971)%Z /\ (-1074 <= 0 - 1)%Z /\
+  interp1 (A := AF) Params.MESH_SNAP m 0.5%float = Ok [1%float] /\
+  interp1 (A := AF) Params.MESH_SNAP m 0.75%float = Ok [7%float] /\
+  interp1 (A := AF) Params.MESH_SNAP m 1.75%float = Ok [2%float].
+Proof.
+  cbv zeta. split; [exact ex_imeshF_wf|]. split; [cbn; lia|].
+  split; [exact ex_imeshF_nodes|]. split; [exact ex_imeshF_incr|].
+  split; [exact (proj1 ex_imeshF_x)|]. split; [exact (proj2 ex_imeshF_x)|].
+  split; [exact ex_imeshF_bound|]. split; [lia|]. split; [cbn; lia|]. split; [cbn; lia|].
+  split; [cbn; lia|]. split; [lia|]. split; [exact ex_imeshF_L|]. split; [exact ex_imeshF_R|].
+  split; [intros; simpl; lia|]. split; [lia|]. split; [lia|]. split; [lia|]. exact ex_imeshF_values.
 Qed.
